@@ -542,6 +542,8 @@ def check_seq(seq, stats):
                     rej_fields = [n for n in ACCEPT_FIELDS_T + ACCEPT_FIELDS_Y if n in f and not f[n].startswith("!") and not accepted(n, f[n])]
                     if removed_since and acc_fields:
                         hits.append(hit("C09", seq, no, raw, f"direct handle {di['words']} is still accepted ({acc_fields[0]}={f[acc_fields[0]][:50]}) after a removal from its archetype", "direct-survives-removal"))
+                        if w.by_token([t_ for t_ in di["toks"] if t_ != "0"]) is None and any(t_ != "0" for t_ in di["toks"]):
+                            hits.append(hit("C01", seq, no, raw, f"the entity the direct handle {di['words']} was obtained for has been destroyed, yet the handle is accepted by {acc_fields[0]}: a destroyed entity's handle must be rejected by every lookup path, whatever its kind", "stale-direct-accepted"))
                     if not removed_since and rej_fields:
                         hits.append(hit("C09", seq, no, raw, f"direct handle {di['words']} is rejected by {rej_fields[0]} although its archetype saw no removal since it was issued", "direct-dies-early"))
                         if di.get("from_loop") == "iterd":
